@@ -373,10 +373,20 @@ def show(e, sym=None):
     return str(e)
 
 
+UNWRAPS = {
+    "core::option::Option::<T>::unwrap": "Some", "core::option::Option::<T>::expect": "Some",
+    "core::result::Result::<T, E>::unwrap": "Ok", "core::result::Result::<T, E>::expect": "Ok",
+    "core::result::Result::<T, E>::unwrap_err": "Err", "core::result::Result::<T, E>::expect_err": "Err",
+}
+
+
 def strip_transparent(e):
-    """Remove transparent calls (as_ref, deref, …) everywhere in the expression."""
+    """Remove transparent calls (as_ref, deref, …) everywhere in the expression; `x.unwrap()` reads
+    like the payload of a `Some(..)` pattern."""
     if not isinstance(e, tuple) or not e:
         return e
+    if e[0] == "call" and not isinstance(e[1], tuple) and e[1] in UNWRAPS and len(e[2]) >= 1:
+        return ("field", ("variant", strip_transparent(e[2][0]), UNWRAPS[e[1]]), "0")
     if e[0] == "call" and not isinstance(e[1], tuple) and e[1] in TRANSPARENT_CALLS and len(e[2]) >= 1:
         return strip_transparent(e[2][0])
     return tuple(strip_transparent(x) if isinstance(x, tuple) else x for x in e)
@@ -649,9 +659,21 @@ class PathCond:
         self._phi_cache = out
         reach_memo = {}
 
+        back = self.back_edges()
+
         def fwd(x):
+            # forward reachability within one loop iteration (back edges are not followed): borrowck's
+            # definite-initialisation rule puts one definition on every such path to a use
             if x not in reach_memo:
-                reach_memo[x] = b.reachable(x, False)
+                seen = set()
+                st = [x]
+                while st:
+                    y = st.pop()
+                    if y in seen:
+                        continue
+                    seen.add(y)
+                    st.extend(tb for _, tb in b.succ_edges(y) if (y, tb) not in back)
+                reach_memo[x] = seen
             return reach_memo[x]
 
         cands = {}
@@ -672,7 +694,8 @@ class PathCond:
             for d in whole:
                 nxt = set()
                 for _, tb in b.succ_edges(d[0]):
-                    nxt |= fwd(tb)
+                    if (d[0], tb) not in back:
+                        nxt |= fwd(tb)
                 if any(o[0] in nxt for o in whole):
                     excl = False
                     break
